@@ -585,10 +585,12 @@ def _d_items(it, v, args, kwargs, node):
     if comp is not None and isinstance(comp[0], TupleV) and len(comp[0].items) == 2 and not v.items and not v.sym_stores:
         # a dict comprehension that was not changed since: its items are the generic (key, value) pair of the comprehension
         return IterV(TupleV(list(comp[0].items)), src=v, desc='items')
-    if not v.open and not v.sym_stores and comp is None and getattr(v, 'merged', None) is None and len(v.items) <= 16:
+    if not v.open and not v.sym_stores and comp is None and getattr(v, 'merged', None) is None and \
+            (len(v.items) <= 16 or getattr(v, 'exact_ok', False)):
         # a fully known dictionary: its items, in insertion order
         r = ListV(items=[TupleV([it.from_py(key), x]) for key, x in v.items.items()], desc='items')
         r.src = v
+        r.exact_ok = bool(getattr(v, 'exact_ok', False))
         return r
     val = SymV(it.fresh('value'), 'any', origin=('value-of', v), tags=v.tags)
     return IterV(TupleV([k, val]), src=v, desc='items')
@@ -603,6 +605,10 @@ def _d_keys(it, v, args, kwargs, node):
 
 
 def _d_values(it, v, args, kwargs, node):
+    if getattr(v, 'exact_ok', False) and not v.open and not v.sym_stores and v.default is None:
+        r = ListV(items=list(v.items.values()), desc='values')
+        r.exact_ok = True
+        return r
     if isinstance(v, PyLit):
         return IterV(SymV(it.fresh('value'), 'any', origin=('value-of', v)), src=v, desc='values',
                      length=Lin.const(len(v.value)))
@@ -1170,8 +1176,24 @@ def e_re_match(it, args, kwargs, node):
     return m
 
 
+def materialise(it, x):
+    """a python literal structure as closed abstract containers of constants (used when a function of the packaged
+    configuration is folded entry by entry instead of being analysed for a generic entry)"""
+    if isinstance(x, dict):
+        d = DictV(items={k: materialise(it, v) for k, v in x.items()}, desc='copied literal')
+        d.exact_ok = True
+        return d
+    if isinstance(x, (list, tuple)):
+        r = ListV(items=[materialise(it, v) for v in x], desc='copied literal')
+        r.exact_ok = True
+        return r
+    return it.from_py(x)
+
+
 def e_deepcopy(it, args, kwargs, node):
     v = it.resolve(args[0])
+    if isinstance(v, PyLit) and it.an.hooks.get('concrete_deepcopy'):
+        return materialise(it, v.value)
     if isinstance(v, PyLit):
         p = PyLit(v.value, v.path + '(copy)', tags=frozenset(t for t in v.tags if t != 'global') | {'copy'})
         d = MutCopy(p)
